@@ -10,11 +10,18 @@ import runtime_h as rh
 RULE = ("multi-tick histories (<=6 ticks quick / <=12 thorough, <=4 / <=8 readings per tick) with reading timestamps in any order "
         "relative to each other, to the held time and to the output time (grid times k/64 and random binary64), read-only ticks "
         "interleaved, control given/omitted (Python), both runtimes and all compiled control/calibration combinations; distinct by "
-        "(runtime, max_dt, t0, history); non-trivial = >=2 ticks and at least one tick with >=2 readings whose timestamps are not sorted")
+        "(runtime, max_dt, t0, history); non-trivial = >=2 ticks and at least one tick with >=2 readings whose timestamps are not sorted; "
+        "stream far-times: fixed multi-tick histories whose times sit at clock-style origins (+-1.7e9 s, ~1e6 s) for every max_dt, "
+        "both runtimes, each propagation of the fold checked against the clauses of C10 in exact rational arithmetic; "
+        "stream generated-max-dt: fixed and fixed-seed histories on the C++ runtime driven with the Tag::max_dt_sec constants of "
+        "filters generated for frame-rate / binary-fraction steps (1/30, 1/128, ...), against the Python runtime's fold")
 NOTE = ["filter calls are observed through a recording stand-in filter (Python) and a recording Impl (C++): the state is the call log, "
         "so held-state semantics are visible in what later ticks return",
         "the by-hand oracle replays the history directly on the recording filter using the plan of C10",
-        "C++ 'cannot tick a control model without control' is a negative compile test (static_assert / overload resolution by g++)"]
+        "C++ 'cannot tick a control model without control' is a negative compile test (static_assert / overload resolution by g++)",
+        "far-times: the fold is replayed by hand on the returned call logs; every run of prediction steps must cover exactly the span "
+        "between the time the estimate was held at and the reading's timestamp / the output time (clauses and slack of C10's plan_oracle)",
+        "generated-max-dt: the recording Impl takes max_dt_sec from the generated filter's own Tag (generated header included as is)"]
 PARTIAL = ["g++ overload resolution and static_assert are trusted for the C++ control clause"]
 
 
@@ -80,6 +87,157 @@ int main() { using I = Impl<0, true, false>; formak::runtime::ManagedFilter<I> m
         return None
     rn = subprocess.run(flags + [neg_path := src], capture_output=True, text=True)
     return rn.returncode != 0
+
+
+FAR_ORIGINS = [1.7e9, -1.7e9, 1048576.5, 946684800.25]      # epoch-style clocks (seconds since 1970 / 2000), ~12 days of uptime
+# (output offset, [(reading offset, id)], control id) in units of max_dt from the origin
+FAR_PATTERNS = [
+    [(3.0, [(2.5, 0)], 1), (4.5, [], 2), (7.0, [(6.2, 1), (5.5, 2)], 3), (6.5, [], 1), (10.0, [(9.3, 3)], 2)],
+    [(-1.25, [(0.75, 1), (-2.5, 0), (0.75, 1)], 2), (-1.25, [], 3), (2.0, [(-0.3, 2)], 1), (2.0, [(2.0, 3)], 1), (0.4, [], 2)],
+]
+
+
+def fold_by_clauses(max_dt, t0, hist, outs, tagged):
+    """the property's sentence checked on the returned call logs themselves: every tick's log starts with the held log, then for each
+    reading a run of prediction steps that covers held time -> timestamp (clauses of C10, exact rationals) and the sensor call, then a
+    run that covers last timestamp -> output time; the held log ends at the last sensor call. Returns None or (tick, description)."""
+    held_t, held = t0, []
+    for i, tk in enumerate(hist):
+        log = outs[i]
+        if not isinstance(log, list):
+            return i, f"tick raised ({log})"
+        if log[:len(held)] != held:
+            return i, "the returned estimate does not start from the estimate held after the last reading"
+        pos = len(held)
+        c = f"c{tk['control_id']}" if tagged and tk.get("control_id") else ""
+        cur = held_t
+        for ts, sid in list(tk["readings"]) + [(tk["out"], None)]:
+            dts = []
+            while pos < len(log) and log[pos].startswith("p "):
+                b, _, tag = log[pos][2:].partition(" ")
+                if tag != c:
+                    return i, f"prediction step made with control {tag or 'none'!r}, the tick was given {c or 'none'!r}"
+                dts.append(rh.bitsf(b))
+                pos += 1
+            bad = rh.plan_oracle(max_dt, cur, ts, dts)
+            if bad:
+                what = f"reading {sid} stamped {ts!r}" if sid is not None else f"output time {ts!r}"
+                return i, f"propagation from {cur!r} to {what}: {bad}"
+            if sid is not None:
+                if pos >= len(log) or log[pos] != f"s {sid}":
+                    return i, f"reading {sid} stamped {ts!r} is not applied after propagating to its timestamp"
+                pos += 1
+                held, held_t = log[:pos], ts
+            cur = ts
+        if pos != len(log):
+            return i, f"{len(log) - pos} filter call(s) after reaching the output time"
+    return None
+
+
+def far_times(ctx, exe):
+    """histories at clock-style time origins: the fold (and each propagation in it) does not depend on where the clock's zero is"""
+    cases = []
+    for t0 in FAR_ORIGINS:
+        for k, m in enumerate(rh.MAXDTS):
+            for pi, pat in enumerate(FAR_PATTERNS):
+                hist = [{"out": t0 + o * m, "readings": [(t0 + r * m, i) for r, i in rs], "control": True, "control_id": cid,
+                         "with_list": False} for o, rs, cid in pat]
+                cases.append((k, t0 + (0.0 if pi == 0 else 0.5 * m), hist))
+    runs = {"python": [rh.py_history(rh.MAXDTS[k], t0, h)["outs"] for k, t0, h in cases]}
+    if exe:
+        for c in rh.COMBOS:
+            runs[f"cpp[{rh.COMBOS[c]}]"] = rh.cpp_run(exe, [(rh.NCOMBO * k + c, t0, h) for k, t0, h in cases])
+    for n, (k, t0, hist) in enumerate(cases):
+        m = rh.MAXDTS[k]
+        ok = {}
+        for name, outs_all in runs.items():
+            outs = outs_all[n]
+            rt = "py" if name == "python" else "cpp"
+            has_ctl = name in ("python", "cpp[control+calibration]", "cpp[control only]")
+            case = {"stream": "far-times", "runtime": name, "max_dt": m, "t0": t0, "history": hist}
+            ctx.case(case, True); ctx.traces += 1; ctx.count("stream=far-times")
+            bad = fold_by_clauses(m, t0, hist, outs, has_ctl)
+            if bad:
+                ctx.fail(f"tick-fold:{rt}:far-times", f"{name}: tick {bad[0]}: {bad[1]}", dict(case, tick=bad[0], got=outs[bad[0]]))
+                continue
+            ok[name] = outs if has_ctl else None
+            if rt == "py":
+                keep = [i for i, t in enumerate(hist) if t["readings"]]
+                if rh.py_history(m, t0, [hist[i] for i in keep])["outs"] != [outs[i] for i in keep]:
+                    ctx.fail("tick-readonly:py:far-times", "a tick without readings changes what later ticks return", case)
+        # same history, same sequence of filter calls in both runtimes
+        for name in ("cpp[control+calibration]", "cpp[control only]"):
+            if ok.get("python") is not None and ok.get(name) is not None and ok[name] != ok["python"]:
+                tick_i = next(i for i, (a, b) in enumerate(zip(ok[name], ok["python"])) if a != b)
+                ctx.fail("tick-same-calls:far-times", f"{name} and python issue different filter calls in tick {tick_i}",
+                         {"stream": "far-times", "runtime": name, "max_dt": m, "t0": t0, "history": hist, "tick": tick_i,
+                          "cpp": ok[name][tick_i], "python": ok["python"][tick_i]})
+
+
+GEN_MAXDTS_QUICK = [1.0 / 30.0, 1.0 / 128.0]
+GEN_MAXDTS_MORE = [1.0 / 60.0, 2.0 / 3.0, 0.0123456789, 1.0 / 120.0]
+
+
+def generated_max_dt_ticks(ctx):
+    """the C++ runtime driven with the max_dt_sec constant a generated filter really carries (Tag::max_dt_sec of the generated
+    header) issues the calls the Python runtime issues for the configured value"""
+    import random
+    from types import SimpleNamespace
+
+    import cppgen
+    import fk
+    import gen
+    from sympy import Symbol
+    x, v, a, dt = Symbol("x"), Symbol("v"), Symbol("a"), Symbol("dt")
+    d = gen.Definition(dt, [x, v], [a], [], {x: x + dt * v, v: v + dt * a}, {"pos": {"x": x}})
+    d._kind = "ekf"
+    ms = GEN_MAXDTS_QUICK if ctx.quick else GEN_MAXDTS_QUICK + GEN_MAXDTS_MORE
+    gens = []
+    for i, m in enumerate(ms):
+        try:
+            g = cppgen.generate(d, {"a": 0.5}, {"pos": {"x": 0.3}}, {}, ctx.scratch, f"tg{i}", max_dt=m, filtering=None, rng=None,
+                                config_as_dict=(i % 2 == 1), namespace=f"tickgen{i}")
+        except Exception as e:  # noqa: BLE001
+            ctx.fail(f"cpp-generate-raises:{fk.exc_kind(e)}", repr(e)[:300], {"stream": "generated-max-dt", "max_dt_sec": m}); continue
+        gens.append((i, m, g))
+    if not gens:
+        return
+    exe = rh.build_cpp(ctx, maxdt_exprs=[f"tickgen{i}::ExtendedKalmanFilter::Tag::max_dt_sec" for i, _, _ in gens],
+                       pre_includes=[g["header"] for _, _, g in gens],
+                       include_dirs=[cppgen.STANDIN, f"{core.REPO}/cpp/include"], exe_name="managed_trace_generated")
+    if exe is None:
+        ctx.broke("correspondence:cpp-build (recording Impl with the generated filters' Tag::max_dt_sec)", ctx.extra.get("cpp_build_error"))
+        return
+    shim = SimpleNamespace(rng=random.Random(1105), quick=True)
+    cases = []
+    for j, (_, m, _) in enumerate(gens):
+        # whole multiples of the configured step, halves, and times that are no multiple at all
+        hist = [{"out": o * m, "readings": [(r * m, i) for r, i in rs], "control": True, "control_id": cid, "with_list": False}
+                for o, rs, cid in FAR_PATTERNS[0]]
+        cases.append((j, m, 0.0, hist))
+        hist = [{"out": o, "readings": [(r, 0) for r in rs], "control": True, "control_id": 1, "with_list": False}
+                for o, rs in ((0.10, [0.05]), (0.20, []), (0.50, [0.40, 0.30]), (0.45, []), (1.00, [0.90]))]
+        cases.append((j, m, 0.0, hist))
+        for _ in range(6 if ctx.quick else 40):
+            t0, hist = gen_history(shim, m)
+            cases.append((j, m, t0, hist))
+    cpp = {c: rh.cpp_run(exe, [(rh.NCOMBO * j + c, t0, hist) for j, m, t0, hist in cases]) for c in rh.COMBOS}
+    for n, (j, m, t0, hist) in enumerate(cases):
+        hand = {True: by_hand(m, t0, hist, py_plan, True), False: by_hand(m, t0, hist, py_plan, False)}
+        py = rh.py_history(m, t0, hist)["outs"]
+        for c in cpp:
+            name = f"cpp[{rh.COMBOS[c]}]"
+            has_ctl = c in (0, 1)
+            outs = cpp[c][n]
+            case = {"stream": "generated-max-dt", "runtime": name, "max_dt": m, "t0": t0, "history": hist}
+            ctx.case(case, True); ctx.traces += 1; ctx.count("stream=generated-max-dt")
+            if outs != hand[has_ctl] or (has_ctl and outs != py):
+                ref = hand[has_ctl] if outs != hand[has_ctl] else py
+                tick_i = next((i for i, (p, q) in enumerate(zip(outs, ref)) if p != q), 0)
+                ctx.fail("tick-fold:cpp:generated-max-dt",
+                         f"{name} driven with the generated filter's Tag::max_dt_sec (configured {m!r}): tick {tick_i} returns a call "
+                         "sequence different from the fold / from the Python runtime's for the configured value",
+                         dict(case, tick=tick_i, got=outs[tick_i][:40], want=ref[tick_i][:40]))
 
 
 def run(ctx):
@@ -182,6 +340,9 @@ def run(ctx):
         ctx.broke("correspondence:cpp control clause (positive compile failed)", None)
     elif neg is False:
         ctx.fail("tick-control:cpp", "C++: a model with control inputs can be ticked without control (compiles)", {"runtime": "cpp"})
+    # deterministic streams (no draws from ctx.rng)
+    far_times(ctx, exe)
+    generated_max_dt_ticks(ctx)
     return core.finish(ctx, audit, NOTE, RULE, PARTIAL)
 
 
